@@ -229,6 +229,14 @@ def body_stmt(draw, nm, opts, late, branch_targets, depth=0, in_repeat=False):
     k = draw(st.sampled_from(kinds))
     allow_dot = opts.get("dot", True)
     even = {"k": "even"}
+    # pdpy11's running time doubles with every address-dependent padding statement (17 of them take 17 s):
+    # a program gets a budget of them, after which only even-sized statements are drawn
+    pad = opts.setdefault("_pad", [8])
+    if k in ("byte", "str", "blk", "align"):
+        if pad[0] <= 0:
+            k = "insn"
+        else:
+            pad[0] -= 1
     if k == "insn":
         return [draw(insn_stmt(nm, branch_targets if not in_repeat else (), allow_dot))]
     if k == "word":
@@ -330,6 +338,7 @@ def file_body(draw, nm, opts, tag):
 @st.composite
 def program_st(draw, **opts):
     nfiles = draw(st.integers(1, opts.get("max_files", 1)))
+    opts = dict(opts, _pad=[opts.get("pad_budget", 8)])
     form = draw(st.sampled_from(opts.get("base_forms", ["none", "link", "dot", "link-late"])))
     if form not in ("link", "dot"):
         # a '. =' met before the base is set would set the base itself: only generated after a leading directive
@@ -361,15 +370,17 @@ def program_st(draw, **opts):
         for path in list(mains):
             body = files[path]
             for _ in range(draw(st.integers(0, 2))):
-                pos = draw(st.integers(0, len(body)))
+                pos = draw(st.sampled_from(even_points(body)))
                 if opts.get("inserts") and draw(st.booleans()):
                     bp = f"data/blob{len(blobs)}.bin"
                     blobs[bp] = draw(st.binary(min_size=0, max_size=40))
-                    body[pos:pos] = [{"k": "insert", "path": bp}, {"k": "even"}]
+                    if len(blobs[bp]) % 2:
+                        blobs[bp] += b"\x55"
+                    body[pos:pos] = [{"k": "insert", "path": bp}]
                 elif opts.get("includes"):
                     ninc += 1
                     ipath = draw(include_tree(files, blobs, opts, f"i{ninc}", 1))
-                    body[pos:pos] = [{"k": "even"}, {"k": "include", "path": ipath}]
+                    body[pos:pos] = [{"k": "include", "path": ipath}]
     base = None
     if form != "none":
         base = draw(st.sampled_from([0, 0o2000, 0o40000, 0o100000, 0o157000, 0o1000, 0o600]))
@@ -388,13 +399,25 @@ def program_st(draw, **opts):
     return {"files": files, "blobs": blobs, "mains": mains, "charset": "bk", "meta": {"base_form": form, "base": base}}
 
 
+def even_points(body):
+    """top-level positions at which the address is even by construction"""
+    pts = []
+    for i in range(len(body) + 1):
+        if i < len(body) and body[i]["k"] == "even":
+            continue
+        if i > 0 and body[i - 1]["k"] == "odd":
+            continue
+        pts.append(i)
+    return pts or [len(body)]
+
+
 @st.composite
 def include_tree(draw, files, blobs, opts, tag, depth):
     """adds an included file (and possibly files it includes, depth <= 3) to `files`; returns its path"""
     consts = names(f"k{tag}", draw(st.integers(0, 2)))
     labels = names(f"l{tag}", draw(st.integers(1, 3)))
     nm = Names(consts, labels, [], [])
-    o = dict(opts)
+    o = dict(opts)      # shares the padding budget (_pad) with the including program
     o["exported"] = set()
     o["max_stmts"] = 5
     o["skip"] = False
@@ -406,8 +429,8 @@ def include_tree(draw, files, blobs, opts, tag, depth):
         # path relative to this file's directory
         import posixpath
         rel = posixpath.relpath(child, posixpath.dirname(path))
-        at = draw(st.integers(0, len(body)))
-        body[at:at] = [{"k": "even"}, {"k": "include", "path": rel}]
+        at = draw(st.sampled_from(even_points(body)))
+        body[at:at] = [{"k": "include", "path": rel}]
     files[path] = body
     return path
 
